@@ -69,6 +69,8 @@ def gen_cases(rng, tier):
     rm = round(rd + spec.rfloat(rng, 0.3, 0.9, 2), 3)
     ra = round(rm + spec.rfloat(rng, 0.3, 1.0, 2), 3)
     cases.append({"kind": "buck4", "p": [spec.rfloat(rng, 100.0, 9000.0), spec.rfloat(rng, 0.15, 0.5), spec.rfloat(rng, 0.5, 120.0), rd, rm, ra]})
+  if tier in ["thorough"]:
+    cases.append({"kind": "suite"})   # the repository's own tests with this check's contracts armed
   return cases
 
 
@@ -158,6 +160,10 @@ def run_buck4(case, ctx):
 
 
 def run_case(case, ctx):
+  if case.get("kind") == "suite":
+    import suite_contracts
+    ctx.cls("kind:suite_with_contracts")
+    return suite_contracts.run_suite(ctx, 'c10', ['spline_call'])
   if case["kind"] == "buck4":
     return run_buck4(case, ctx)
   node = case["node"]
